@@ -420,6 +420,16 @@ by themselves.  The code has no such rule, and the model proves what happens ins
 section IncludeBoundary
 open RsslVerif.Model.CondFile RsslVerif.Model.Macro RsslVerif.Lemmas.CondFile
 
+/-- Tie to the source for the composed model: the include-depth limit, that `#include` hands the includer's own
+    `ConditionChain` to `preprocess_included_file` (which never inspects it), that `find_single_macro` tests
+    for `defined` before the macro loop, that the recursive expansions run with `apply_defined = false`, and
+    that only `#if/#elif` lines use `apply_defined = true` — re-extracted from `/repo` on every run
+    (`tools/gens/c11.py` raises `ExtractError` when a shape changes). -/
+theorem composed_shape_agree :
+    maxIncludeDepth = 200 ∧ chainSharedByIncludes = true ∧ definedTestFirst = true ∧
+    innerCallsWithoutDefined = true ∧ definedOnlyInConditions = true := by
+  decide
+
 /-- **The chain is shared across `#include` (for every includer state).**  Whatever handler, fuel and state:
     including a file whose whole text is `#endif` pops the level the *includer* opened; a file `#else` switches
     the includer's if-section; a file `#ifdef X` returns with its level still open — in all three cases without
